@@ -134,6 +134,7 @@ class Repo:
                     self.functions[(rel, n.name)] = n
                     self.func_by_name.setdefault(n.name, []).append((rel, n))
         self.renamed = {}
+        self.new_functions = set()
         self._restore_local_names()
 
     def all_functions(self):
@@ -157,6 +158,7 @@ class Repo:
         if not os.path.exists(p) or os.environ.get("VERIF_NO_ALPHA"):
             return
         base = json.load(open(p))
+        self.new_functions = {key for key, _ in self.all_functions() if key not in base}     # e.g. helpers extracted by a refactoring
         for key, fn in self.all_functions():
             b = base.get(key)
             if b is None:
